@@ -529,7 +529,13 @@ func runC20(c *fw.Case) {
 			if f.r.Intn(5) == 0 {
 				// a valid nested update with exactly one field made hostile: random filling
 				// practically never gets past the structural checks of these messages
-				msg = f.nearValid()
+				// building a plausible message reads balances and locked coins of the accounts the
+				// fuzzer created earlier: x/bank panicking on one of them is a finding, not a crash
+				if p := safeCall("nearValid", func() { msg = f.nearValid() }); p != nil {
+					c.ViolateD("C20/bank-panics-on-account-created-by-a-handler", map[string]string{"variant": f.variant, "panic": short(p.Value, 300), "stack": short(p.Stack, 3000)},
+						"reading the locked coins of an account that an accepted message created panicked: %s", short(p.Value, 200))
+					break
+				}
 			}
 			if msg == nil {
 				proto0 := msgs[f.r.Intn(len(msgs))]
@@ -807,6 +813,15 @@ func (f *fuzzEnv) nearValid() sdk.Msg {
 				}
 				if f.r.Intn(6) == 0 {
 					f.sameAccountTwice(reflect.ValueOf(op.msg).Elem())
+				}
+				if m, ok := op.msg.(*vesttypes.MsgCreateVestingAccount); ok && f.r.Intn(3) == 0 {
+					// a vesting period right at the limit of what the account can compute:
+					// 2^63-1 seconds, 2^63 (the difference wraps), 2^63+1
+					f.class("nv:period-at-int64-limit")
+					m.StartTime = m.EndTime + math.MinInt64 + int64(f.r.Intn(3)) - 1
+					if m.StartTime > m.EndTime { // wrapped the other way
+						m.StartTime = m.EndTime + math.MinInt64
+					}
 				}
 				return op.msg
 			}
